@@ -26,6 +26,7 @@ type Engine struct {
 	Funcs   map[string]*ssa.Function // canonical key -> function (repo functions only)
 	LoadS   float64
 	syntax  []*ast.File
+	addrTaken []*ssa.Function
 }
 
 // Term is an SMT term with its sort and (when known) Go type.
